@@ -183,6 +183,8 @@ fn exec_seq(sc: &Scenario) -> Report {
                     call(|| h.unset_length())
                 }
                 "tick" => call(|| h.tick()),
+                "reset_elapsed" => call(|| h.reset_elapsed()),
+                "reset_eta" => call(|| h.reset_eta()),
                 "set_message" => call(|| h.set_message("m")),
                 "clone" => {
                     clones.push(h.clone());
@@ -448,6 +450,18 @@ fn run_thread_ops(
             }
             "dec" => call(|| h.dec(a)),
             "tick" => call(|| h.tick()),
+            // calls that are not part of the position-defining history: they must not disturb it
+            "neutral" => call(|| match a % 7 {
+                0 => h.reset_elapsed(),
+                1 => h.reset_eta(),
+                2 => h.set_message("m"),
+                3 => h.set_prefix("p"),
+                4 => h.set_length(1000),
+                5 => {
+                    let _ = (h.eta(), h.per_sec(), h.elapsed(), h.duration(), h.length(), h.message());
+                }
+                _ => h.println("l"),
+            }),
             "get" => {
                 let lo = completed.load(Ordering::SeqCst);
                 let r = call(|| h.position());
@@ -486,7 +500,7 @@ impl Check for C07 {
         "C07"
     }
     fn rule_text(&self) -> String {
-        "seq: PRNG histories (1..40 ops) of (optionally with_position at construction) inc/dec/set_position/reset/finish*/abandon*/finish_using_style/update(set_pos,set_len)/set_length/inc_length/dec_length/unset_length/clone/drop with arguments biased to u64 boundaries, hidden and visible bars; after every call position()/length()/is_finished()/ProgressState view/fraction() are compared with a wrapping-u64 + saturating-Option model and every call is wrapped in catch_unwind. sched: 2..8 simulated threads each holding its own clone (or clone of a clone) doing 1..20 inc/dec/tick/get under a seeded random/sticky/PCT scheduler with every atomic load/store/RMW a scheduling point, with and without a steady ticker; oracle = wrapping sum after join + reachable positions. Non-trivial: seq = history of >= 2 ops containing a boundary argument (0 or > 2^62); sched = at least two threads with operations. Distinct = distinct scenario hash.".into()
+        "seq: PRNG histories (1..40 ops) of (optionally with_position at construction) inc/dec/set_position/reset/finish*/abandon*/finish_using_style/update(set_pos,set_len)/set_length/inc_length/dec_length/unset_length/clone/drop with arguments biased to u64 boundaries, hidden and visible bars; after every call position()/length()/is_finished()/ProgressState view/fraction() are compared with a wrapping-u64 + saturating-Option model and every call is wrapped in catch_unwind. sched: 2..8 simulated threads each holding its own clone (or clone of a clone) doing 1..20 inc/dec/tick/get and position-neutral calls (reset_elapsed/reset_eta/set_message/set_prefix/set_length/getters/println) under a seeded random/sticky/PCT scheduler with every atomic load/store/RMW a scheduling point, with and without a steady ticker; oracle = wrapping sum after join + reachable positions. Non-trivial: seq = history of >= 2 ops containing a boundary argument (0 or > 2^62); sched = at least two threads with operations. Distinct = distinct scenario hash.".into()
     }
     fn assumptions(&self) -> Vec<String> {
         vec![
@@ -566,7 +580,7 @@ impl Check for C07 {
                     9 => Op::new("inc_length").n(a),
                     10 => Op::new("dec_length").n(a),
                     11 => Op::new("unset_length"),
-                    12 => Op::new("tick"),
+                    12 => Op::new(*rng.pick(&["tick", "tick", "reset_elapsed", "reset_eta"])),
                     13 => Op::new("set_message"),
                     14 => Op::new("clone"),
                     15 => Op::new("drop_clone").n(rng.below(4)),
@@ -596,8 +610,9 @@ impl Check for C07 {
                 let n = rng.range(1, if tier == Tier::Quick { 8 } else { 20 });
                 let mut ops = vec![];
                 for _ in 0..n {
-                    let k = rng.weighted(&[10, if wrapping { 5 } else { 0 }, 1, 3, 1]);
+                    let k = rng.weighted(&[10, if wrapping { 5 } else { 0 }, 1, 3, 1, 2]);
                     ops.push(match k {
+                        5 => Op::new("neutral").n(rng.below(7)),
                         0 => Op::new("inc").n(if wrapping { boundary_u64(rng) } else { rng.range(0, 9) }),
                         1 => Op::new("dec").n(boundary_u64(rng)),
                         2 => Op::new("tick"),
